@@ -1395,6 +1395,13 @@ impl<D: DependencyProvider, RT: AsyncRuntime> Solver<D, RT> {
                 .as_solvable(&self.state.variable_map)
                 .map(|s| self.provider().solvable_name(s));
             if let Some(name_id) = name_id {
+                // The candidates of the package of a soft requirement are not
+                // necessarily requested, so the vector may not cover it yet.
+                if self.state.name_activity.len() <= name_id.to_usize() {
+                    self.state
+                        .name_activity
+                        .resize(name_id.to_usize() + 1, 0.0);
+                }
                 self.state.name_activity[name_id.to_usize()] += self.activity_add;
             }
         }
